@@ -36,6 +36,8 @@ TRead ==
                          /\ s' = SReadOkPeriodic(v, s, Ev.ret.pat, Ev.ret.off, Ev.ret.n)
          [] k = "okp_run" -> /\ Ev.ret.n >= 1 /\ Ev.ret.n <= Ev.buflen /\ Ev.ret.count >= 1 /\ v.ckLen = 1
                              /\ s' = SReadOkRun(v, s, Ev.ret.pat, Ev.ret.off, Ev.ret.n, Ev.ret.count)
+         [] k = "lie" -> /\ Ev.ret.n >= 1 /\ Ev.ret.n <= Ev.buflen /\ s.bufKnown
+                         /\ s' = SReadLie(v, s, Ev.ret.n)
          [] k = "int" -> s' = SReadInterrupted(v, s)
          [] k = "err" -> s' = SReadErr(v, s, Ev.ret.err)
          [] k = "eof" -> s' = SReadEof(v, s)
